@@ -172,8 +172,69 @@ def families(alpha, tier, what):
     return pre, pumps, suf
 
 
+CHAIN_N = (6, 12, 18, 24, 30)
+
+
+def custom_chain(kind, n):
+    """Custom maps whose total text grows linearly with n; compile time must stay polynomial in n."""
+    c = {':--c0': 'a', ':--c1': 'b'}
+    for k in range(2, n + 1):
+        if kind == 'fib':
+            c[':--c%d' % k] = ':--c%d:--c%d' % (k - 1, k - 2)
+        elif kind == 'fib-list':
+            c[':--c%d' % k] = ':--c%d, :--c%d' % (k - 1, k - 2)
+        elif kind == 'double':
+            c[':--c%d' % k] = ':--c%d :--c%d' % (k - 1, k - 1)
+        elif kind == 'not':
+            c[':--c%d' % k] = ':not(:--c%d, :--c%d)' % (k - 1, k - 2)
+        else:
+            c[':--c%d' % k] = 'p:--c%d' % (k - 1)
+    return c
+
+
+def run_custom_chains(sv, res):
+    for kind in ('fib', 'fib-list', 'double', 'not', 'linear'):
+        for use in (':--c%d', 'div > :--c%d', ':is(:--c%d, x)'):
+            times = []
+            for n in CHAIN_N:
+                cm = custom_chain(kind, n)
+                pat = use % n
+
+                def fn(_s, cm=cm, pat=pat):
+                    sv.purge()
+                    sv.compile(pat, custom=cm)
+                    return 0
+                best = None
+                for _ in range(2):
+                    t = timed(fn, '', CAP)
+                    if t is None:
+                        best = None
+                        break
+                    best = t if best is None else min(best, t)
+                times.append(best)
+                res.evaluations += 1
+                if best is None:
+                    break
+            res.nontrivial += 1
+            bad = None
+            for i in range(1, len(times)):
+                prev, cur = times[i - 1], times[i]
+                if cur is None and prev is not None and prev < CAP / 8:
+                    bad = f'n={CHAIN_N[i - 1]}: {prev:.4f}s, then the {CAP}s cap at n={CHAIN_N[i]}'
+                elif cur is not None and prev is not None and cur > FLOOR and cur / max(prev, 1e-4) > 16:
+                    bad = f'n={CHAIN_N[i - 1]}: {prev:.4f}s, n={CHAIN_N[i]}: {cur:.4f}s (ratio {cur / max(prev, 1e-4):.0f} for {CHAIN_N[i] - CHAIN_N[i - 1]} more definitions)'
+            if times and times[0] is None:
+                bad = f'{CHAIN_N[0]} definitions already exceed the {CAP}s cap'
+            if bad:
+                res.outcome('super-polynomial')
+                res.fail({'what': 'custom-chain', 'kind': kind, 'use': use}, {'kind': 'super-polynomial', 'driver': 'compile(custom chain)'},
+                         f'compile({use.replace("%d", "N")!r}, custom=<{kind} chain of N definitions>): {bad}')
+            else:
+                res.outcome('custom-chain-polynomial')
+
+
 def shards(tier, seed):
-    out = []
+    out = [('custom-chain', tier, 0, 0)]
     _, pumps, _ = families(F, tier, 'pattern')
     per = 1 if tier == 'quick' else 8
     for i in range(0, len(pumps), per):
@@ -204,6 +265,9 @@ def run_shard(desc):
     warnings.simplefilter('ignore')
     res = shard.Result()
     what, tier, lo, hi = desc
+    if what == 'custom-chain':
+        run_custom_chains(sv, res)
+        return res
     if what == 'pattern':
         inv = inventory(sv)
         ds = drivers(sv, inv)
@@ -274,6 +338,12 @@ def replay(case):
     sv = common.bind()
     warnings.simplefilter('ignore')
     res = shard.Result()
+    if case['what'] == 'custom-chain':
+        run_custom_chains(sv, res)
+        for f in res.failures:
+            if f['case']['kind'] == case['kind']:
+                return f['sig'], f['detail']
+        return (res.failures[0]['sig'], res.failures[0]['detail']) if res.failures else None
     if case['what'] == 'pattern':
         ds = dict(drivers(sv, inventory(sv)))
     else:
